@@ -10,14 +10,15 @@ prop, wt = sys.argv[1], sys.argv[2]
 checks = sys.argv[3:] or [prop]
 ENV = dict(os.environ, GOFLAGS="-mod=mod", GOPROXY="off", GOSUMDB="off", GOTOOLCHAIN="local")
 PKGDIR = {"table": "fw/table", "fw": "fw/fw", "face": "fw/face", "mgmt": "fw/mgmt", "encoding": "std/encoding",
-          "basic": "std/engine/basic", "object": "std/object", "dv": "dv/dv"}
+          "basic": "std/engine/basic", "object": "std/object", "dv": "dv/dv", "spec_2022": "std/ndn/spec_2022", "codegen": "std/encoding/codegen", "security": "std/security", "mgmt_2022": "std/ndn/mgmt_2022", "dispatch": "fw/dispatch", "gen_basic": "std/encoding/tests/gen_basic", "basic_test": "std/engine/basic"}
 def sh(cmd, **k):
     return subprocess.run(cmd, shell=True, capture_output=True, text=True, env=k.pop("env", ENV), **k)
+TAGS = ""
 def demo(wt, files):
     ok = True; out = ""
     for f, d in files:
         shutil.copy(f, os.path.join(wt, d, "zz_seed_demo_test.go"))
-        r = sh("go test -vet=off -count=1 ./%s/ 2>&1 | tail -15" % d, cwd=wt)
+        r = sh("go test %s -vet=off -count=1 ./%s/ 2>&1 | tail -15" % (TAGS, d), cwd=wt)
         os.remove(os.path.join(wt, d, "zz_seed_demo_test.go"))
         passed = ("ok  \t" in r.stdout) and ("FAIL" not in r.stdout)
         ok = ok and passed; out += r.stdout[-600:]
@@ -33,7 +34,12 @@ for kd in sorted(glob.glob(os.path.join(wt, "out", "*"))):
         md = re.search(r"((?:fw|std|dv)/[\w/]+?)/?(?:\s|$|`|\")", meta.get("demo", ""))
         if md and os.path.isdir(os.path.join(wt, md.group(1))) and md.group(1).split("/")[-1] in (pk, d.split("/")[-1] if d else ""):
             d = md.group(1)
+        if meta.get("demo_dir") and os.path.isdir(os.path.join(wt, meta["demo_dir"].strip("/"))):
+            d = meta["demo_dir"].strip("/")
         files.append((f, d))
+    TAGS = "-tags verif" if "-tags verif" in meta.get("demo", "") else ""
+    if "-race" in meta.get("demo", ""):
+        TAGS += " -race"
     res = {"property": prop, "seed": k, "summary": meta.get("summary"), "needs": meta.get("needs"), "files": meta.get("files")}
     assert sh("git status --porcelain --untracked-files=no", cwd=wt).stdout.strip() == "", "worktree dirty"
     base_ok, _ = demo(wt, files)
